@@ -58,7 +58,7 @@ def _dims(d):
         "bias": ["auto", "mean", False, True, "scalar"],
         "kernel": [3, 1],
         "flags": flags,
-        "ext": [[4] * d, [4] * (d - 1) + [8]],
+        "ext": [[4] * d, [4] * (d - 1) + [8], [6] * d],
     }
 
 
@@ -225,6 +225,8 @@ def run_case(case, seed):
 
     D = case["d"]
     cl = _classify(case)
+    if case["cls"] == "UNet" and any(e % (2 ** case["size"]) for e in case["ext"]):
+        cl = ("unsupported", "extent not compatible with the pooling")
     if cl[0] != "defined":
         # outside the alphabet; the library may or may not raise — never counted as a pass
         return {"status": "disabled", "note": cl[0]}
